@@ -28,7 +28,7 @@ ActSeqs(kind, sid) ==
 Init == st = InitSt /\ out = Tau /\ tk = TkInit /\ bad = {}
 
 Fold == IF WithMonitors
-        THEN LET tk2 == TkStep(tk, out') IN tk' = tk2 /\ bad' = bad \cup Checks(tk, out', tk2)
+        THEN LET j == Judge(tk, out') IN tk' = j.tk /\ bad' = bad \cup j.findings
         ELSE UNCHANGED <<tk, bad>>
 
 DoCall == /\ Idle(st)
